@@ -156,7 +156,11 @@ def impl_one(case):
     try:
         try:
             asts = parse.parse("<t>", text)
-            if len(asts) != 1: res = f"NEXPR {len(asts)}"
+            if case.get("many"):          # main.main: every expression of the text, one evaluate() each, in one process; the first failure propagates
+                env0 = AS.Env([], []); outs = []
+                for a_ in asts: outs.append(interpret.evaluate(M.formatter(AS.Expr(a_, env0), bool(case.get("fio"))), debugger=rec))
+                res = "V " + ",".join(str(ord(c)) for c in " | ".join(outs))
+            elif len(asts) != 1: res = f"NEXPR {len(asts)}"
             else:
                 r = interpret.evaluate(M.formatter(AS.Expr(asts[0], AS.Env([], [])), False), debugger=rec)
                 if case.get("floats", True): r = canon_floats(r)
@@ -192,6 +196,10 @@ def cps(s): return ",".join(str(ord(c)) for c in s)
 def model_line(case):
     lines = case.get("stdin", [])
     inp = "-" if not lines else "|".join(cps(x) for x in lines)
+    if case.get("many"):          # run_main_many: every expression of the text
+        fl = case.get("files") or {}
+        dk = ";".join(cps(rel) + "=" + (".".join(str(b) for b in content) or "e") for rel, content in fl.items()) or "-"
+        return f"MM\t{dk}\t{inp}\t{1 if case.get('fio') else 0}\t{cps(case['text'])}"
     if case.get("files") is not None:          # run_main_fs on the disk holding the module files
         dk = ";".join(cps(rel) + "=" + (".".join(str(b) for b in content) or "e") for rel, content in case["files"].items()) or "-"
         return f"IM\t{dk}\t{inp}\t{cps(case['text'])}"
